@@ -108,8 +108,9 @@ func RunProperty(cfg Config) int {
 		}
 	}
 	sort.Strings(names)
+	var droppedMsgs []string
 	for _, d := range l.Dropped {
-		fmt.Printf("REDUCED-BOUND: harness file %s does not type-check against this tree; its sub-checks are not encodable\n", d)
+		droppedMsgs = append(droppedMsgs, fmt.Sprintf("harness file %s does not type-check against this tree; its sub-checks are not encodable", d))
 	}
 	if len(names) == 0 {
 		fmt.Printf("INCONCLUSIVE no harness for %s loads on this tree\n", cfg.Prop)
@@ -124,7 +125,7 @@ func RunProperty(cfg Config) int {
 	known := loadKnown(filepath.Join(cfg.Verif, "known_findings.json"))
 	exit := 0
 	inconclusive := []string{}
-	reduced := []string{}
+	reduced := append([]string{}, droppedMsgs...)
 	violations := 0
 	knownHit := map[string]bool{}
 	var samples []interface{}
